@@ -21,18 +21,27 @@ def parse(infile, implfile, modelfile):
     with open(infile) as fi, open(implfile) as fa, open(modelfile) as fm:
         for li, la, lm in zip(fi, fa, fm):
             t = li.split()
-            W, G = int(t[1]), int(t[2])
-            rest = " ".join(t[4:]).split("|")
+            W, G = int(t[2]), int(t[3])
+            rest = " ".join(t[5:]).split("|")
             arr = [int(x) for x in rest[0].split()]
             svc = [int(x) for x in rest[1].split()]
             n = len(arr)
+            m = [int(x) for x in lm.split()]
+            base = {"input": li.strip(), "impl": la.strip(), "model": lm.strip(), "W": W, "G": G, "arr": arr, "svc": svc,
+                    "m_started": m[0]}
+            if la.startswith("R"):
+                base.update({"refused": True, "ref_class": int(la.split()[1])})
+                rows.append(base)
+                continue
+            model_refused_only = m[0] == 0
+            m = m[1:] if not model_refused_only else [0, 0, 0, 0] + [0] * (2 * n)
             a = la.split("|")
             exit_ns, exit_code = [int(x) for x in a[0].split()]
             acc = [int(x) for x in a[1].split()]
             comp = [int(x) for x in a[2].split()]
             ends = [int(x) for x in a[3].split()]
-            m = [int(x) for x in lm.split()]
             rows.append({"input": li.strip(), "impl": la.strip(), "model": lm.strip(), "W": W, "G": G, "arr": arr, "svc": svc,
+                         "refused": False, "m_started": 0 if model_refused_only else 1, "model_refused_only": model_refused_only,
                          "exit": exit_ns, "code": exit_code, "acc": acc, "comp": comp, "ends": ends,
                          "m_close": m[0], "m_deadline": m[1], "m_exit": m[2], "m_code": m[3],
                          "m_acc": m[4:4 + n], "m_comp": m[4 + n:4 + 2 * n]})
@@ -43,6 +52,17 @@ def compare(ctx, rows, name):
     mism = []
     for i, r in enumerate(rows):
         why = []
+        if r.get("refused") or r.get("model_refused_only"):
+            # start-up decision: the model's sd_startable against the binary's refusal (fatal class 24 / 25)
+            if r.get("model_refused_only"):
+                why.append("the model refuses these periods at start-up, the binary started")
+            elif r["m_started"] != 0:
+                why.append("the binary refused these periods at start-up (class %d), the model starts" % r["ref_class"])
+            elif r["ref_class"] not in (24, 25):
+                why.append("refused at start-up for another reason (class %d)" % r["ref_class"])
+            if why:
+                mism.append({"index": i, "input": r["input"], "impl": r["impl"], "model": r["model"], "why": why})
+            continue
         if r["acc"] != r["m_acc"]:
             why.append("accepted flags")
         if r["comp"] != r["m_comp"]:
@@ -67,6 +87,14 @@ def monitor(ctx, rows, notes):
     sig = set()
     for i, r in enumerate(rows):
         W, G = r["W"], r["G"]
+        if r.get("refused"):
+            sig.add((W, G, "refused", r["ref_class"]))
+            # refusing is right exactly when the periods are inconsistent (property C20: "shutdown periods must be mutually
+            # consistent"): a refusal of consistent periods would make the scenario unobservable
+            if 0 <= W < G:
+                ctx.violation("consistent-periods-refused", "start-up refused wait-before %.2f s / graceful %.2f s" % (W / SEC, G / SEC),
+                              {"scenario": notes[i] if i < len(notes) else "", "W_ns": W, "G_ns": G})
+            continue
         case = {"scenario": notes[i] if i < len(notes) else "", "W_ns": W, "G_ns": G,
                 "requests_(arrival_ns,service_ns)": list(zip(r["arr"], r["svc"])),
                 "observed": {"exit_ns": r["exit"], "exit_status": r["code"], "accepted": r["acc"], "completed": r["comp"], "end_ns": r["ends"]}}
@@ -107,7 +135,11 @@ def monitor(ctx, rows, notes):
 
 def run(ctx):
     pre = ctx.path("shutdown")
-    out, dt = vf.run_driver(["shutdown", "-out", pre, "-seed", str(ctx.seed), "-tier", ctx.tier], timeout=1500)
+    from lib.machine import code_flags
+    args = ["shutdown", "-out", pre, "-seed", str(ctx.seed), "-tier", ctx.tier]
+    if code_flags().get("wait_nonneg"):
+        args.append("-wait-nonneg")
+    out, dt = vf.run_driver(args, timeout=1500)
     ctx.timings["shutdown"] = round(dt, 2)
     vf.run_model(pre + ".in", pre + ".model")
     rows = parse(pre + ".in", pre + ".impl", pre + ".model")
@@ -130,5 +162,6 @@ def run(ctx):
         "hijacked connections (WebSocket upgrades) are not tracked by Shutdown and are outside the model",
         "real-time comparison: flags and exit status exact, exit time within 0.7 s; no retries; planned instants are kept >= 150 ms away from "
         "every instant at which the outcome changes (listener close, poll windows with jitter, deadline)",
-        "W < G is guaranteed by Config.Validate (C20: c20_starts_periods); 0 <= W is NOT (c20_negative_wait_accepted)",
+        "0 <= W < G is guaranteed by Config.Validate since fix 164dd13 (C20: c20_starts_periods; c19_exit_within_graceful_when_started); "
+        "scenarios with W < 0 or G <= W are observed as refusals at start-up and compared with sd_startable",
     ]
